@@ -80,6 +80,11 @@ CHECKS = {
     text="TLC shows that with the observed prefix map building an expression can return an object of another class exactly for the candidate pairs it enumerates. The corpus (TLC-generated programs of four QueryGen foci, single-parameter variations, equal-looking inputs with other data, repartitions of one frame to several targets, a parquet dataset rewritten in place, API-level rename vs column setter, a from_map callable object) is built forward, reversed, shuffled after 200 unrelated queries, and in fresh interpreters with other PYTHONHASHSEED; TLC requires one name per query node and one (key -> task token) set per optimized graph across all builds, one fingerprint per name and one task per key within a build (fingerprints are computed without dask's tokenize), and that API calls return the class they build.",
     note="Trusted: TLC; the harness fingerprint (class qualname + canonical operand dump, pandas data by hash_pandas_object). DiskShuffle's per-graph uuid keys are excluded by design (F15). Constructor-level aliases between classes that cannot receive equal operands through the API are reported in the evidence, not judged.",
     design="5.5 C08"),
+ "C17": dict(
+    technique="TLA+ model of cut-and-continue (Cut.tla) model-checked by TLC for all operator chains x cut points x cut kinds; TLC-generated programs cut for real at every intermediate collection with persist / delayed (with meta+divisions, bare, with prefix) / legacy round trips; CutTrace validated by TLC",
+    text="TLC checks for every chain of partition-wise / other / partition-selecting operators, cut point and cut kind that continuing on the import node yields the same partition contents, keeps divisions unless the cut kind documents their loss, and that an import node absorbing different selections has different names only if its name covers the selection. Every proper sub-collection of TLC-generated programs is cut with six kinds of round trip and the rest of the program runs on the re-imported collection; TLC validates the final result (order / labels where defined), declared schema, divisions and the graph invariants of the cut plan against the uncut query, and partition selections on the imported node against the head's own partitions.",
+    note="Trusted: TLC; persist on the synchronous scheduler; installed dask's legacy dataframe. Scalars are not cut (no to_delayed).",
+    design="5.6 C17"),
 }
 
 def main():
